@@ -121,7 +121,6 @@ theorem UcOf_nonneg {env : Env} {N S : Nat} {mk : MulKey} {s : List Poly} {Emax 
 /-- numeric well-formedness of the automorphism keys for ciphertexts of `S` limbs, with one error constant `Ua` -/
 structure AtkNum (env : Env) (N S : Nat) (big : Bool) (ak : AutKeys) (s : List Poly) (Kb Emax : Int) (Ua : ℚ) : Prop where
   hrot : ∀ k, env.rotKeys.contains k = true → ∃ key, ak.get k = some key
-  hconj : ∃ key, ak.conj = some key
   hkeys : ∀ key, ((∃ k, ak.get k = some key) ∨ ak.conj = some key) → ∃ (gInv : Int) (EL KL : ℕ → ℕ → Poly),
     AutKeyNum env N 1 big key s gInv EL KL Kb Emax ∧ S ≤ key.mat.size ∧ S ≤ key.mat.rows ∧
     (((key.mat.colsIn * (key.mat.rows * (N * 2 ^ (env.base2k - 1) * Emax)) : Int) : ℚ)
@@ -160,14 +159,17 @@ theorem autAssignAdm_S {env : Env} (he : EnvOK env) {N S : Nat} {big : Bool} {ak
 
 /-! ### the calls -/
 
-/-- what a call needs of its plaintext operands (and, for `ckks_dot_product_ct`, that it does not take the fused path) -/
-def OpOK (env : Env) (N S : Nat) (P : Pool) : XOp → Prop
+/-- what a call needs of its plaintext operands (for `ckks_dot_product_ct`: that it does not take the fused path; for a conjugation: that
+the conjugation key was supplied — the Rust call takes it as an argument) -/
+def OpOK (env : Env) (N S : Nat) (ak : AutKeys) (P : Pool) : XOp → Prop
   | .lin op => op.PtsOK env N
   | .mulPt _ _ pt pg => PtOK env N pt pg ∧ pt.size ≤ S
   | .mulPtAssign _ pt pg => PtOK env N pt pg ∧ pt.size ≤ S
   | .mulAddPt _ _ _ pt pg => PtOK env N pt pg ∧ pt.size ≤ S
   | .dotPt _ as pt pgs => pgs.length = as.length ∧ (∀ pg ∈ pgs, PtOK env N pt pg) ∧ pt.size ≤ S
   | .dotCt d as bs => ∀ cs ds, getAll P d as = some cs → getAll P d bs = some ds → cs.length = 1 ∨ dotUniform cs ds = false
+  | .conj _ _ => ∃ key, ak.conj = some key
+  | .conjAssign _ => ∃ key, ak.conj = some key
   | _ => True
 
 theorem getAll_of_dgetAll (pool : DPool) (d : Nat) : ∀ (as : List Nat) (xs : List DCt), dgetAll pool d as = some xs →
@@ -207,6 +209,22 @@ theorem getAll_has {P : Pool} {d : Nat} : ∀ {as : List Nat} {cs : List Ct}, ge
           rcases List.mem_cons.mp ha with rfl | ha'
           · rw [hpa] at hc; injection hc with hc; subst hc; simp
           · exact List.mem_cons_of_mem _ (getAll_has hr a ha' c hc)
+
+theorem getAll_length {P : Pool} {d : Nat} : ∀ {as : List Nat} {cs : List Ct}, getAll P d as = some cs → cs.length = as.length
+  | [], _, h => by simp only [getAll] at h; injection h with h; subst h; rfl
+  | a0 :: as, cs, h => by
+    simp only [getAll] at h
+    split at h
+    · cases h
+    · cases hpa : P[a0]? with
+      | none => simp [hpa] at h
+      | some c0 =>
+        cases hr : getAll P d as with
+        | none => simp [hpa, hr] at h
+        | some cs0 =>
+          simp only [hpa, hr] at h
+          injection h with h; subst h
+          simp [getAll_length hr]
 
 /-- every term of an accumulation that succeeded returned `Ok` on some temporary -/
 theorem accumulate_terms_ok {env : Env} : ∀ (ts : List (Ct → Res Ct)) {d m : Ct}, ts.foldl (accStep env) (.ok d) = .ok m →
@@ -278,7 +296,7 @@ theorem pool_ct {pool : DPool} {j : Nat} {x : DCt} {c : Ct} (hx : pool[j]? = som
 theorem xadm_numeric {env : Env} (he : EnvOK env) {N S : Nat} (hN : 0 < N) {mk : MulKey} {ak : AutKeys} {s : List Poly} {Kb Emax : Int}
     {Ua : ℚ} (ht : TskNum env N S mk s Kb Emax) (hk : AtkNum env N S mk.big ak s Kb Emax Ua)
     (hroomPt : (S : Int) * (N * 2 ^ env.base2k * 2 ^ env.base2k) + 8 ≤ 2 ^ (bitsOf mk.big - 2))
-    {pool : DPool} (hp : AllOK env N 1 pool) (hS : ∀ c ∈ pool, c.g.size = S) (op : XOp) (hop : OpOK env N S (DPool.cts pool) op)
+    {pool : DPool} (hp : AllOK env N 1 pool) (hS : ∀ c ∈ pool, c.g.size = S) (op : XOp) (hop : OpOK env N S ak (DPool.cts pool) op)
     {mp : Pool} (hm : stepR env (DPool.cts pool) op.toOp = .ok mp) :
     XAdm env N 1 mk ak s (UcOf env N S mk s Emax) Ua pool op := by
   have sz : ∀ {j : Nat} {c : DCt}, pool[j]? = some c → c.g.size = S := fun h => hS _ (List.mem_of_getElem? h)
@@ -364,22 +382,22 @@ theorem xadm_numeric {env : Env} (he : EnvOK env) {N S : Nat} (hN : 0 < N) {mk :
     exact ⟨key, hkey, fun cd hd => autAssignAdm_S he hk (Or.inl ⟨k, hkey⟩) (hp.get hd) (sz hd)⟩
   | conj d a =>
     obtain ⟨cd0, ca0, m, hd0, ha0, _, hf, _⟩ := op2_ok' (show op2 _ d a (fun cd ca => mulPow2Into env cd ca 0) = .ok mp from hm)
-    obtain ⟨key, hkey⟩ := hk.hconj
+    obtain ⟨key, hkey⟩ := (hop : ∃ key, ak.conj = some key)
     refine ⟨key, hkey, fun cd ca hd ha => ?_⟩
     have e1 := pool_ct hd hd0
     have e2 := pool_ct ha ha0
     subst e1; subst e2
     exact autIntoAdm_S he hk (Or.inr hkey) (hp.get hd) (sz hd) (hp.get ha) (sz ha) (show shiftInto env cd.ct ca.ct 0 = .ok m from hf)
   | conjAssign d =>
-    obtain ⟨key, hkey⟩ := hk.hconj
+    obtain ⟨key, hkey⟩ := (hop : ∃ key, ak.conj = some key)
     exact ⟨key, hkey, fun cd hd => autAssignAdm_S he hk (Or.inr hkey) (hp.get hd) (sz hd)⟩
 
 /-! ### programs -/
 
 /-- the plaintext operands of every call are well formed where the call is executed -/
-def OpsOK (env : Env) (N S : Nat) : Pool → List XOp → Prop
+def OpsOK (env : Env) (N S : Nat) (ak : AutKeys) : Pool → List XOp → Prop
   | _, [] => True
-  | P, op :: rest => OpOK env N S P op ∧ ∀ P', stepR env P op.toOp = .ok P' → OpsOK env N S P' rest
+  | P, op :: rest => OpOK env N S ak P op ∧ ∀ P', stepR env P op.toOp = .ok P' → OpsOK env N S ak P' rest
 
 theorem sizes_all {pool : DPool} {S : Nat} : (∀ c ∈ pool, c.g.size = S) ↔ ∀ x ∈ sizes (DPool.cts pool), x = S := by
   simp only [sizes, DPool.cts, List.map_map, List.mem_map, Function.comp_def, DCt.ct]
@@ -391,7 +409,7 @@ theorem sizes_all {pool : DPool} {S : Nat} : (∀ c ∈ pool, c.g.size = S) ↔ 
 theorem runAdm_numeric {env : Env} (he : EnvOK env) {N S : Nat} (hN : 0 < N) {mk : MulKey} {ak : AutKeys} {s : List Poly} {Kb Emax : Int}
     {Ua : ℚ} (hUa : 0 ≤ Ua) (ht : TskNum env N S mk s Kb Emax) (hk : AtkNum env N S mk.big ak s Kb Emax Ua)
     (hroomPt : (S : Int) * (N * 2 ^ env.base2k * 2 ^ env.base2k) + 8 ≤ 2 ^ (bitsOf mk.big - 2)) :
-    ∀ (ops : List XOp) {pool : DPool}, AllOK env N 1 pool → (∀ c ∈ pool, c.g.size = S) → OpsOK env N S (DPool.cts pool) ops →
+    ∀ (ops : List XOp) {pool : DPool}, AllOK env N 1 pool → (∀ c ∈ pool, c.g.size = S) → OpsOK env N S ak (DPool.cts pool) ops →
       ∀ {mp : Pool}, run env (DPool.cts pool) (ops.map XOp.toOp) = .ok mp →
         RunAdm env N 1 mk ak s (UcOf env N S mk s Emax) Ua pool ops
   | [], _, _, _, _, _, _ => trivial
@@ -421,7 +439,7 @@ explicit constants `UcOf` and `Ua`. -/
 theorem program_correct_numeric {env : Env} (he : EnvOK env) {N S : Nat} (hN : 0 < N) {mk : MulKey} {ak : AutKeys} {s : List Poly} {Kb Emax : Int}
     {Ua : ℚ} (hUa : 0 ≤ Ua) (ht : TskNum env N S mk s Kb Emax) (hk : AtkNum env N S mk.big ak s Kb Emax Ua)
     (hroomPt : (S : Int) * (N * 2 ^ env.base2k * 2 ^ env.base2k) + 8 ≤ 2 ^ (bitsOf mk.big - 2))
-    (ops : List XOp) {pool : DPool} (hp : AllOK env N 1 pool) (hS : ∀ c ∈ pool, c.g.size = S) (hops : OpsOK env N S (DPool.cts pool) ops)
+    (ops : List XOp) {pool : DPool} (hp : AllOK env N 1 pool) (hS : ∀ c ∈ pool, c.g.size = S) (hops : OpsOK env N S ak (DPool.cts pool) ops)
     {mp : Pool} (hm : run env (DPool.cts pool) (ops.map XOp.toOp) = .ok mp) :
     ∃ pool', xrun env N mk ak pool ops = .ok pool' ∧ DPool.cts pool' = mp ∧ AllOK env N 1 pool' ∧ (∀ c ∈ pool', c.g.size = S) ∧
       ∀ τ, TracksB s N pool τ → TracksB s N pool' (xspecRun env N ak (sn 1 s) (UcOf env N S mk s Emax) Ua (DPool.cts pool) τ ops) := by
@@ -528,11 +546,10 @@ structure AutKeyWF (env : Env) (N : Nat) (key : Ks.Key) (s : List Poly) (gInv : 
   hE0 : 0 ≤ Emax
   hE : ∀ i r, Hal.normInf (EL i r) ≤ Emax
 
-/-- well-formedness of the automorphism keys of a run: a key for every rotation the metadata model knows and for the conjugation, each
+/-- well-formedness of the automorphism keys of a run: a key for every rotation the metadata model knows, each key (the conjugation key included)
 well formed, of at most `D` rows, covering `S` limbs, with error constant at most `Ua` -/
 structure AtkWF (env : Env) (N S D : Nat) (ak : AutKeys) (s : List Poly) (Emax : Int) (Ua : ℚ) : Prop where
   hrot : ∀ k, env.rotKeys.contains k = true → ∃ key, ak.get k = some key
-  hconj : ∃ key, ak.conj = some key
   hkeys : ∀ key, ((∃ k, ak.get k = some key) ∨ ak.conj = some key) → ∃ (gInv : Int) (EL KL : ℕ → ℕ → Poly),
     AutKeyWF env N key s gInv EL KL Emax ∧ key.mat.rows ≤ D ∧ S ≤ key.mat.size ∧ S ≤ key.mat.rows ∧
     (((key.mat.colsIn * (key.mat.rows * (N * 2 ^ (env.base2k - 1) * Emax)) : Int) : ℚ)
@@ -564,7 +581,7 @@ theorem AutKeyWF.toNum {env : Env} {p : ParamSet} (hr : p.Room) (hb : env.base2k
 
 theorem AtkWF.toNum {env : Env} {p : ParamSet} (hr : p.Room) (hb : env.base2k = p.b) {ak : AutKeys} {s : List Poly} {Emax : Int} {Ua : ℚ}
     (h : AtkWF env p.N p.S p.D ak s Emax Ua) : AtkNum env p.N p.S p.big ak s (2 ^ (env.base2k - 1)) Emax Ua := by
-  refine ⟨h.hrot, h.hconj, fun key hkey => ?_⟩
+  refine ⟨h.hrot, fun key hkey => ?_⟩
   obtain ⟨gInv, EL, KL, hwf, hD, c1, c2, hU⟩ := h.hkeys key hkey
   exact ⟨gInv, EL, KL, hwf.toNum hr hb hD, c1, c2, hU⟩
 
@@ -580,7 +597,7 @@ theorem ckks_program_correct (p : ParamSet) (hr : p.Room) {env : Env} (hb : env.
     {ak : AutKeys} {s : List Poly} {Emax : Int} {Ua : ℚ} (hUa : 0 ≤ Ua)
     (ht : TskWF env p.N p.S p.D mk s Emax) (hk : AtkWF env p.N p.S p.D ak s Emax Ua)
     (ops : List XOp) {pool : DPool} (hp : AllOK env p.N 1 pool) (hS : ∀ c ∈ pool, c.g.size = p.S)
-    (hops : OpsOK env p.N p.S (DPool.cts pool) ops) {mp : Pool} (hm : run env (DPool.cts pool) (ops.map XOp.toOp) = .ok mp) :
+    (hops : OpsOK env p.N p.S ak (DPool.cts pool) ops) {mp : Pool} (hm : run env (DPool.cts pool) (ops.map XOp.toOp) = .ok mp) :
     ∃ pool', xrun env p.N mk ak pool ops = .ok pool' ∧ DPool.cts pool' = mp ∧ AllOK env p.N 1 pool' ∧ (∀ c ∈ pool', c.g.size = p.S) ∧
       ∀ τ, TracksB s p.N pool τ →
         TracksB s p.N pool' (xspecRun env p.N ak (sn 1 s) (UcOf env p.N p.S mk s Emax) Ua (DPool.cts pool) τ ops) := by
